@@ -18,7 +18,7 @@ PROFILES = {
 }
 
 N_RANDOM = {"quick": 3000, "thorough": 60000}
-N_LIFE = {"quick": 2500, "thorough": 50000}
+N_LIFE = {"quick": 8000, "thorough": 80000}
 LIFE_PIDS = ("C01", "C02", "C03", "C05", "C07", "C08", "C12", "C15", "C16", "C17")
 
 BLUR_CONFIGS = [Config(usage=True, blur=b, allow_list=(i % 2 == 0)) for i, b in enumerate([1, 7, 60, 61, 97, 3600, 86400])]
